@@ -16,6 +16,7 @@ class VirtualClock:
         self.steps = list(plan.get("steps", ()))
         self.tail = float(plan.get("tail", 0.0))
         self.expire = plan.get("expire_at_read")
+        self.per_eval = float(plan.get("per_eval", 0.0))  # virtual seconds every callback evaluation takes
         self.n = 0
         self.reads = []  # (reader, value)
         self.probe = None  # optional callable sampled at every read (progress of the run at that moment)
